@@ -50,6 +50,8 @@ WITNESSES = {
 
 WITNESSES.update(H.WITNESSES)
 
+BOUND_FEATURE_SETS = [("bound_var",), ("bound_var", "funcs"), ("bound_var", "continue", "tuple"), ("bound_var", "branch_first"),
+                      ("bound_var", "float", "funcs", "div"), ("bound_var", "pass")]
 HELPER_FEATURES = [("tuple",), ("tuple", "float"), ("tuple", "div"), ("tuple", "continue"), ("tuple", "pass")]
 LABELS = ("int", "float", "bool", "String")
 
@@ -294,6 +296,46 @@ LAYOUT_CORPUS = [
                                     ("write", "w0")]),
              ("write", "(i0 + w0)")],
      "main": [("if", [("(i0 > 1000)", [("write", '"huge"'), ("assign", "i0", "0"), ("sleep", "5")])], []), ("assign", "i0", "(i0 + 1)"), ("write", "i0")]},
+]
+
+
+# for-range loops whose bound is a BARE variable with a value known when the line is parsed and another one when the loop
+# runs (CPython reads the variable each time the for statement is executed): re-assigned between passes of the main loop
+# (plain and augmented), inside an enclosing while loop of the setup part, in an if branch before the loop, from a sensor read,
+# shrinking, through a copy, as a parameter of a helper (also spelled like a module-level constant); the same variable bare
+# as a sleep argument and in a condition.  Run first of the 'bound_var' group, every tier, plain and under layout noise.
+BOUND_CORPUS = [
+    {"pre": [("assign", "m0", "1")],
+     "main": [("for", "k0", "m0", [("write", "k0")]), ("write", '"--"'), ("sleep", "(10 * m0)"), ("assign", "m0", "(m0 + 1)")], "loops": 4},
+    {"pre": [("assign", "m0", "2"), ("assign", "w0", "0"),
+             ("while", "(w0 < 3)", [("assign", "i0", "0"), ("for", "k0", "m0", [("aug", "i0", "+", "(k0 + 1)")]),
+                                    ("write", 'f"{w0}:{m0}:{i0}"'), ("assign", "m0", "(m0 + 2)"), ("aug", "w0", "+", "1")])], "main": None},
+    {"pre": [("assign", "i0", "7"), ("assign", "m0", "2"), ("if", [("(i0 > 5)", [("assign", "m0", "4")])], []),
+             ("for", "k0", "m0", [("write", "(k0 * i0)")]), ("write", '"done"')], "main": None},
+    {"pre": [("assign", "m0", "3"), ("read", "m0", "digital", "4"), ("for", "k0", "m0", [("write", "(k0 + 50)")]),
+             ("assign", "m1", "2"), ("read", "m1", "analog", '"A1"'), ("assign", "m1", "(m1 % 4)")],
+     "main": [("for", "k0", "m1", [("write", "(k0 * 10 + m1)")]), ("read", "m1", "analog", '"A1"'), ("assign", "m1", "(m1 % 3)"),
+              ("if", [("(m1 >= 0)", [("sleep", "m1")])], [])],
+     "input": "ar 14 300\nar 15 7 2 5 1 700\ndr 4 1 0\n", "loops": 3},
+    {"pre": [("assign", "m0", "4"), ("assign", "m1", "1")],
+     "main": [("for", "k0", "m0", [("write", "(m0 - k0)"), ("for", "k1", "m1", [("write", "(k0 * 10 + k1)")])]),
+              ("aug", "m0", "-", "1"), ("aug", "m1", "+", "1"), ("if", [("(m0 < 2)", [("assign", "m0", "3")])], []),
+              ("if", [("(m0 >= 0)", [("aw", "5", "m0")])], [])], "loops": 4},
+    {"pre": [("assign", "m0", "2"), ("assign", "m1", "0"), ("for", "k0", "m1", [("write", '"never"')]), ("assign", "m1", "m0"),
+             ("assign", "m0", "(m0 - 3)"), ("for", "k0", "m1", [("write", "(k0 + m0)")]), ("for", "k1", "m0", [("write", '"negative"')]), ("write", "m0")],
+     "main": [("for", "k0", "3", [("assign", "m1", "((m1 + 1) % 4)"), ("for", "k1", "m1", [("write", "(k0 * 100 + k1)")])])], "loops": 2},
+    {"funcs": [("fn0", ["m0", "p1"], [("for", "k0", "m0", [("write", "(k0 * 10 + p1)")]), ("assign", "m0", "(m0 + 1)"), ("for", "k1", "m0", [("write", '"x"')])], "(m0 + p1)"),
+               ("fn1", ["p0"], [("assign", "i9", "0"), ("for", "k0", "p0", [("aug", "i9", "+", "k0")])], "i9")],
+     "head": [("assign", "m0", "2")],
+     "pre": [("assign", "i0", "0"), ("write", "fn0(3, 5)"), ("write", "fn0(0, 6)"), ("write", "fn1(m0)"), ("write", "fn1(4)")],
+     "main": [("assign", "i0", "(i0 + 1)"), ("write", "fn0(i0, 7)"), ("write", "fn1(i0 + m0)"), ("write", "m0")], "loops": 3},
+    # the limit of a while loop and both sides of a swap are such variables
+    {"pre": [("assign", "m0", "1"), ("assign", "m1", "3"), ("assign", "w0", "0")],
+     "main": [("assign", "w0", "0"), ("while", "(w0 < m0)", [("write", "(w0 * 10 + m0)"), ("assign", "w0", "(w0 + 1)")]),
+              ("swap", "m0", "m1"), ("assign", "m1", "(m1 + 1)"), ("for", "k0", "m1", [("write", '"y"')])], "loops": 3},
+    # range() with two / three arguments, the variable among them: rejected (ValueError), never translated into something else
+    {"pre": [("assign", "m0", "3"), ("for", "k0", "1, m0", [("write", "k0")])], "main": None},
+    {"pre": [("assign", "m0", "3")], "main": [("for", "k0", "0, m0, 2", [("write", "k0")]), ("assign", "m0", "(m0 + 1)")], "loops": 2},
 ]
 
 
@@ -821,6 +863,30 @@ def run_unit(ctx: C.Ctx):
         progs.append(p)
         feats.append(f)
         noisy.append((i // len(FEATURE_SETS)) % 2 == 1)          # every other round of the feature sets
+    # 'bound_var' group (appended; its own stream derived from the seed, so the programs above are what they were):
+    # the boundary programs, then seeded programs over BOUND_FEATURE_SETS
+    brng = random.Random(f"C01-bound-var:{ctx.seed}")
+    n_old = len(progs)
+    bstats = collections.Counter()
+    for noise_on in (False, True):
+        for cp in BOUND_CORPUS:
+            progs.append({"funcs": list(cp.get("funcs", [])), "head": list(cp.get("head", [])), "pre": list(cp["pre"]), "main": cp["main"],
+                          "input": cp.get("input", "ar 14 300\nar 15 2\ndr 4 1\n"), "_loops": cp.get("loops", 0)})
+            feats.append(("corpus", "bound_var") + (("layout-noise",) if noise_on else ()))
+            noisy.append(noise_on)
+    for i in range(180 if thorough else 36):
+        f = BOUND_FEATURE_SETS[i % len(BOUND_FEATURE_SETS)]
+        for _ in range(6):          # at least one for-range loop with a bare variable bound
+            g = progen.Gen(brng, f)
+            p = g.program(with_main=brng.random() < 0.85)
+            if any(k_.startswith("for-b") for k_ in p["n_bound"]):
+                break
+        bstats.update(p["n_bound"])
+        p["input"] = gen_inputs(brng)
+        p["_loops"] = brng.choice([1, 2, 3, 3, 4]) if p["main"] is not None else 0
+        progs.append(p)
+        feats.append(f)
+        noisy.append(i % 3 == 2)
     srcs = []
     for p, nz_on, f_ in zip(progs, noisy, feats):
         if nz_on:
@@ -828,7 +894,7 @@ def run_unit(ctx: C.Ctx):
             # and headers: CPython ignores them all, so the oracle is unchanged; the text is kept for the IR correspondence
             # every other noisy program additionally with the `wide` classes: per-block indentation widths (or tabs only),
             # optional blanks between tokens, CRLF, no final newline, non-ASCII comment text
-            nz = progen.Noise(nrng, p_line=0.45 if "corpus" in f_ else 0.3, wide=nstats["noisy-programs"] % 2 == 1,
+            nz = progen.Noise(brng if "bound_var" in f_ else nrng, p_line=0.45 if "corpus" in f_ else 0.3, wide=nstats["noisy-programs"] % 2 == 1,
                               p_space=0.5 if "corpus" in f_ else 0.25)
             p["_src"] = progen.render(p, noise=nz)
             if not progen.same_python(p["_src"], progen.render(p)):
@@ -837,7 +903,7 @@ def run_unit(ctx: C.Ctx):
             nstats["noisy-programs"] += 1
             nstats["noisy-programs-with-dedented-comment-inside-block"] += 1 if nz.stats.get("dedented-comment-inside-block") else 0
         srcs.append(src_of(p))
-    loops = [(rng.choice([0, 1, 2, 3]) if p["main"] is not None else 0) for p in progs]
+    loops = [(rng.choice([0, 1, 2, 3]) if p["main"] is not None else 0) for p in progs[:n_old]] + [p["_loops"] for p in progs[n_old:]]
     res = run_pair(srcs, [p["input"] for p in progs], loops)
     stats = collections.Counter()
     outside = []
@@ -916,6 +982,7 @@ def run_unit(ctx: C.Ctx):
                     "loop_passes": dict(collections.Counter(loops)), "with_main_loop": sum(1 for p in progs if p["main"] is not None),
                     "constant_inputs": sum(1 for p in progs if len(const_inputs(p["input"])) == 3),
                     "continue_by_innermost_loop": dict(conts), "programs_with_continue_by_status": dict(cont_progs),
+                    "bare_variable_bounds": dict(bstats), "bound_var_programs_by_status": dict(collections.Counter(r_["status"] for r_ in res[n_old:])),
                     "layout_noise": dict(nstats), "list_layout_noise": dict(lnstats),
                     "fixed_witnesses_replayed_first": n_fixed, "helper_functions": hu}
     ctx.coverage.setdefault("distribution", {})["C01_stmt"] = distribution
@@ -924,11 +991,11 @@ def run_unit(ctx: C.Ctx):
         "C int = Z and device float = Q in the models: runs that leave the 32-bit / binary32 range are detected on the CPython side and excluded, not blamed"]
     return {
         "distribution": distribution, "outside_guard_samples": outside[:3],
-        "theorems": "layout (Lang/StmtLayout.v + the block-skeleton parser Lang/Lex.v): C01_stmt_layout_noise_invisible (EVERY layout inside the round-trip guard - junk lines at any column, trailing comments, any indentation unit - is read as the statements of its skeleton: no statement leaves or enters a block, no else arm is lost), C01_stmt_ir_relayout_invariant (same IR of the statement model for any two layouts of a script), C01_noisy_lines_keep_every_statement (lines -> IR keeps every statement in its block and phase), witnesses C01_layout_noise_witness (column-0 comment inside an if block in front of its second statement; the script with the statement moved out is a different statement list), C01_layout_chain_witness; C01_no_silent_drop, C01_break_guard, C01_continue_guard, C01_continue_translation (all programs); C01_stmt_preserve_partial (simulation inside StmtGuard.guard_ok, modulo the shared expression semantics + SemFacts.sem_facts); C01_stmt_{range_bound,loop_var_assigned,retype}_refuted (witnesses = listed findings); repaired and positive: C01_nothing_is_reinitialised (EVERY accepted program: no node of setup() / loop() at any depth declares or assigns a default value - the universally quantified statement both repaired findings contradicted), C01_hoisted_declaration_dropped, C01_first_assignment_becomes_assignment, C01_main_loop_first_assignment_is_global (all inputs), C01_stmt_promotion_no_reinit, C01_stmt_loop_variable_persists (the witnesses of F-C01-hoisted-decl-reinit / F-C01-loop-local-reinit: both traces equal); helper functions (Lang/FnRet.v): C01_return_type_covers, C01_bool_helper_only_truth_values, C01_number_or_truth_helper_is_int (all label lists), C01_helper_call_value_preserved (every body with any number of return statements: same state, events and number on both sides), C01_helper_call_serial_preserved_partial (guard FnRet.uniform_kind), C01_helper_mixed_return_refuted (finding F-C01-helper-mixed-return); tuple assignment (Lang/TupleOrder.v): C01_tuple_rhs_evaluated_in_source_order, C01_tuple_declaration_evaluated_in_source_order (the emitted statements evaluate e0..en once each, in source order, before the first target is written)",
+        "theorems": "layout (Lang/StmtLayout.v + the block-skeleton parser Lang/Lex.v): C01_stmt_layout_noise_invisible (EVERY layout inside the round-trip guard - junk lines at any column, trailing comments, any indentation unit - is read as the statements of its skeleton: no statement leaves or enters a block, no else arm is lost), C01_stmt_ir_relayout_invariant (same IR of the statement model for any two layouts of a script), C01_noisy_lines_keep_every_statement (lines -> IR keeps every statement in its block and phase), witnesses C01_layout_noise_witness (column-0 comment inside an if block in front of its second statement; the script with the statement moved out is a different statement list), C01_layout_chain_witness; C01_no_silent_drop, C01_break_guard, C01_continue_guard, C01_continue_translation (all programs); C01_stmt_preserve_partial (simulation inside StmtGuard.guard_ok, modulo the shared expression semantics + SemFacts.sem_facts); C01_for_variable_bound_follows_the_variable (its instance on `n = v0 / while True: for i in range(n): write(i) / write(n) / n = n + 1` for EVERY initial value v0 and every number of passes: loop() starts with the for node over the bare name n and both traces are equal - the bound is read when the loop is reached, not when the line is parsed), C01_stmt_{range_bound,loop_var_assigned,retype}_refuted (witnesses = listed findings); repaired and positive: C01_nothing_is_reinitialised (EVERY accepted program: no node of setup() / loop() at any depth declares or assigns a default value - the universally quantified statement both repaired findings contradicted), C01_hoisted_declaration_dropped, C01_first_assignment_becomes_assignment, C01_main_loop_first_assignment_is_global (all inputs), C01_stmt_promotion_no_reinit, C01_stmt_loop_variable_persists (the witnesses of F-C01-hoisted-decl-reinit / F-C01-loop-local-reinit: both traces equal); helper functions (Lang/FnRet.v): C01_return_type_covers, C01_bool_helper_only_truth_values, C01_number_or_truth_helper_is_int (all label lists), C01_helper_call_value_preserved (every body with any number of return statements: same state, events and number on both sides), C01_helper_call_serial_preserved_partial (guard FnRet.uniform_kind), C01_helper_mixed_return_refuted (finding F-C01-helper-mixed-return); tuple assignment (Lang/TupleOrder.v): C01_tuple_rhs_evaluated_in_source_order, C01_tuple_declaration_evaluated_in_source_order (the emitted statements evaluate e0..en once each, in source order, before the first target is written)",
         "guard": "StmtGuard.guard_ok: every variable first assigned at top level of the setup part (global) or at top level of the `while True:` body before any read in the text of that body (a global as well since the repair of F-C01-loop-local-reinit: default initialiser, assigned in place, value kept between passes); later assignments keep the type label; tuple assignment either as the declaration of distinct new names at top level of the setup part, or (n >= 1) to names that are all declared already with unchanged types (swap / rotation / parallel assignment through block-local temporaries `__tmp_assign_k`, at any nesting level and in the main loop; mixed new/declared tuples and tuple declarations inside the main loop stay outside); declared names are not spelled like a temporary; range() bound int-labelled, independent of the loop variable and of names the body assigns; loop variables fresh, unassigned, read only inside their loop; consistent expression ids.  Oracle guard (dynamic): no computed int leaves 32 bits (CPython run with every expression instrumented); a script whose deviation the extracted model itself predicts (outside guard_ok) is not blamed.  `continue` is inside the guard (any placement the parser accepts: in for / while loops, under nested ifs, in the body of the main loop where it is `return;` from loop()).  Layout: one statement per physical line; indentation by blanks only or by tabs only (never mixed: F-C07-tab-width); a blank after if / elif / while, none between a callee / `range` and its parenthesis nor around the dot of a method call (F-C07-keyword-paren, F-C07-call-paren-space); no '#' inside triple-quoted literals; everything else CPython ignores (comment-only lines at any column, blank lines, trailing comments, optional blanks between tokens, CRLF) is generated",
         "unmodelled": ["helper functions: the return type and the returned value are modelled (Lang/FnRet.v, tied to _merge_return_types exhaustively and to the emitted return type of every generated helper); parameters / per-signature variants, locals of a helper and the call sites inside expressions are covered by the firmware-vs-CPython oracle only (generated helpers: several return statements, effects, calls in every expression position)", "side effects of expressions: the simulation theorem's expression semantics is pure; the ORDER of effectful right-hand sides of a tuple assignment is proved at the level of the emitted node list (C01_tuple_rhs_evaluated_in_source_order) and observed on the firmware by the oracle; C++ operand / argument evaluation order inside one expression is outside every model (finding F-C01-eval-order)", "lists, try/except, device objects (firmware-vs-CPython oracle only)", "hoisting (promotion: a name first assigned inside an if/while/for block) is in Lang.Transl and in the executable correspondence (IR and both traces), but outside the simulation theorem's guard; the refuted witness retype marks where the unchanged code stops preserving behaviour; hoisted-decl-reinit and loop-local-reinit are repaired (witness theorems C01_stmt_promotion_no_reinit / C01_stmt_loop_variable_persists, rewriter theorems for all inputs) ; for every accepted program C01_nothing_is_reinitialised excludes the defect class itself (no default re-initialisation anywhere) - a universally quantified SIMULATION theorem for hoisting is not proved", "tuples mixing new and declared names, tuple first-assignments inside the main loop (globals assigned from the temporaries: in Lang.Transl.tr_tuple_main and both correspondences, outside the simulation theorem's guard)", "expression translation (unit C01_expr): the simulation is modulo a shared opaque expression semantics", "16-bit int of a real AVR", "identifiers reserved in C++ (keywords, setup / loop, Arduino core names, A<n>): rejected by the parser since the repair of F-C06-cpp-keyword-identifier; Lang.Transl does not transcribe that check (its model is coq/Lang/Reserved.v of C06, tied to parser._check_identifier there) and the generated programs take their names from pools without such names"],
         "evaluations": len(progs) + len(lsrcs) + ir["ir_cases"] + ir.get("exec_cases", 0) + hu.get("merge_cases", 0) + hu["helper_programs"], "list_programs_by_status": dict(lstats), "programs_by_status": dict(stats), "ir_correspondence": ir,
         "distinct_nontrivial": len({s for s, r in zip(srcs, res) if r["status"] == "equal" and len(r["py"]) >= 3}) + hu["nontrivial"],
         "samples": [srcs[0][len(progen.HEADER):], srcs[-1][len(progen.HEADER):]],
-        "rule": "the witnesses of repaired defects first (F-C01-continue-dropped), then 20 hand-written boundary programs (break guard, nested break, empty range, elif chain, shadowing loop variable, tuple declarations reading re-assigned variables, tuple assignments to declared names - float swap, rotation, Fibonacci step, swaps in the main loop -, promotion out of for/while/if; `continue` in for-range, in while, under nested ifs, in an else arm, in the inner of two loops, in the main loop body directly / under nested ifs / inside a for loop of the main loop, unconditional with dead code after it, misplaced = rejected) + seeded programs from harness/progen.py over 8 feature sets (core ints; +floats; +helper functions; +tuple/swap; all; first assignment inside branches; `continue`; `continue` + all), N in 0..3 loop passes, scripted analog/digital inputs (half of them constant per pin); every program: firmware trace vs CPython trace (oracle); programs without helper functions: IR of Lang.Transl.transl vs IR of the real parser; those with constant inputs additionally: extracted pexec vs CPython trace and extracted transl+cexec vs firmware trace (Lang.StmtExec), and the number of them inside the guard of C01_stmt_preserve_partial is recorded; non-trivial = both sides ran and the common trace has >= 3 events; HELPER FUNCTIONS (harness/c01_helpers.py): 12 hand-written helper scripts (False-or-number and number-or-comparison helpers, tuple assignment from reporting / global-updating / sleeping / pin-driving helpers at module level, in the main loop and to function locals, early return out of loops, recursion, bare return, two call signatures, calls in while/if/elif conditions, and/or operands, conditional-expression arms, f-string fields) + seeded programs with 2-5 helpers each (kinds int / bool / bool+int mixed / float / void; shapes guard chain, early return in for and while loops, nested ifs, single return; effects serial / delay / pin / global counter) called from every expression position; oracle = firmware trace vs CPython trace; ties = Lang.FnRet.merge_ret vs _merge_return_types on all 2730 label lists of length <= 5 x has_void, and per parsed helper: labels handed to _merge_return_types = `return e` statements of the generated body, emitted return type = cpp(merge_ret labels); LAYOUT NOISE (harness/progen.py Noise; CPython ignores all of it, so every oracle and correspondence is unchanged - the IR correspondence parses the noisy text and compares with the model's IR of the tree): every boundary program a second time, three layout boundary programs (blocks of every kind with several statements whose condition is false / whose count is not 1, else arms behind them, three levels, the same inside the main loop) and every other round of the generated programs / helper programs / list programs carry comment-only lines at every column (0, the enclosing header's column, between, the current indentation, deeper) before any statement - the first of a block, elif / else included - and after the last one of a block, blank and blanks-only lines, trailing comments and trailing blanks on statements and headers (if / elif / else / while / for / def / the main loop), comment texts that look like code (`# else:`, `# while True:`, `# i0 = 99`, unbalanced quotes, two hashes); half of those additionally: each block with its own indentation width (1-8 blanks) or the whole script tab-indented, optional blanks around = / augmented operators / commas / inside call parentheses / before the colon / between header words, CRLF line ends, no newline at the end of the file, non-ASCII comment text; counts in distribution.layout_noise (dedented-comment-inside-block = a comment-only line no deeper than the enclosing header followed by a statement of the same block)",
+        "rule": "BARE-VARIABLE BOUNDS (group 'bound_var', own stream derived from the seed; harness/progen.py feature bound_var): 10 boundary programs (a for-range bound that is a bare variable, constant-initialised and then grown by a plain re-assignment at the end of every pass of the main loop / grown inside an enclosing while loop of the setup part / chosen in an if branch / read from a sensor / shrunk by an augmented assignment and reset under an if / copied, negative, zero / the first parameter of a helper spelled like a module-level constant declared above the def and re-assigned inside the helper; the same variable as the limit of a while loop, as both sides of a swap, bare as sleep / analog_write argument; range() with two and three arguments = rejected), each plain and under layout noise, + 36 (thorough 180) seeded programs over 6 feature sets in which variables m0 / m1 (declared with an int literal, sometimes from a digital read; with helpers mostly above the defs) are re-assigned by plain and augmented +-1 steps, modular steps, literals (also under an if), digital reads, analog reads reduced mod 3..5, copies and swaps - in the setup part, inside for / while loops, in branches and in the main loop - and are used BARE as range() bounds (never assigned in the body of that loop: F-C01-range-bound-reeval), while limits, sleep / analog_write arguments, call arguments of helpers whose first parameter bounds a for loop (half of those parameters are spelled m0), and inside conditions and arithmetic; 1-4 passes of the main loop; judged by the firmware-vs-CPython trace oracle, the programs without helpers also by the IR and execution correspondences; counts in distribution.bare_variable_bounds | the witnesses of repaired defects first (F-C01-continue-dropped), then 20 hand-written boundary programs (break guard, nested break, empty range, elif chain, shadowing loop variable, tuple declarations reading re-assigned variables, tuple assignments to declared names - float swap, rotation, Fibonacci step, swaps in the main loop -, promotion out of for/while/if; `continue` in for-range, in while, under nested ifs, in an else arm, in the inner of two loops, in the main loop body directly / under nested ifs / inside a for loop of the main loop, unconditional with dead code after it, misplaced = rejected) + seeded programs from harness/progen.py over 8 feature sets (core ints; +floats; +helper functions; +tuple/swap; all; first assignment inside branches; `continue`; `continue` + all), N in 0..3 loop passes, scripted analog/digital inputs (half of them constant per pin); every program: firmware trace vs CPython trace (oracle); programs without helper functions: IR of Lang.Transl.transl vs IR of the real parser; those with constant inputs additionally: extracted pexec vs CPython trace and extracted transl+cexec vs firmware trace (Lang.StmtExec), and the number of them inside the guard of C01_stmt_preserve_partial is recorded; non-trivial = both sides ran and the common trace has >= 3 events; HELPER FUNCTIONS (harness/c01_helpers.py): 12 hand-written helper scripts (False-or-number and number-or-comparison helpers, tuple assignment from reporting / global-updating / sleeping / pin-driving helpers at module level, in the main loop and to function locals, early return out of loops, recursion, bare return, two call signatures, calls in while/if/elif conditions, and/or operands, conditional-expression arms, f-string fields) + seeded programs with 2-5 helpers each (kinds int / bool / bool+int mixed / float / void; shapes guard chain, early return in for and while loops, nested ifs, single return; effects serial / delay / pin / global counter) called from every expression position; oracle = firmware trace vs CPython trace; ties = Lang.FnRet.merge_ret vs _merge_return_types on all 2730 label lists of length <= 5 x has_void, and per parsed helper: labels handed to _merge_return_types = `return e` statements of the generated body, emitted return type = cpp(merge_ret labels); LAYOUT NOISE (harness/progen.py Noise; CPython ignores all of it, so every oracle and correspondence is unchanged - the IR correspondence parses the noisy text and compares with the model's IR of the tree): every boundary program a second time, three layout boundary programs (blocks of every kind with several statements whose condition is false / whose count is not 1, else arms behind them, three levels, the same inside the main loop) and every other round of the generated programs / helper programs / list programs carry comment-only lines at every column (0, the enclosing header's column, between, the current indentation, deeper) before any statement - the first of a block, elif / else included - and after the last one of a block, blank and blanks-only lines, trailing comments and trailing blanks on statements and headers (if / elif / else / while / for / def / the main loop), comment texts that look like code (`# else:`, `# while True:`, `# i0 = 99`, unbalanced quotes, two hashes); half of those additionally: each block with its own indentation width (1-8 blanks) or the whole script tab-indented, optional blanks around = / augmented operators / commas / inside call parentheses / before the colon / between header words, CRLF line ends, no newline at the end of the file, non-ASCII comment text; counts in distribution.layout_noise (dedented-comment-inside-block = a comment-only line no deeper than the enclosing header followed by a statement of the same block)",
     }
